@@ -265,6 +265,9 @@ func clone(m *specqbft.SignedMessage) *specqbft.SignedMessage {
 	return c
 }
 
+// CloneMsg returns an independent copy of a signed message.
+func CloneMsg(m *specqbft.SignedMessage) *specqbft.SignedMessage { return clone(m) }
+
 // Deliver hands a (re-decoded copy of a) message to operator `to` through Controller.ProcessMsg.
 func (w *World) Deliver(to OpID, m *specqbft.SignedMessage) (*specqbft.SignedMessage, error) {
 	dec, err := w.Ctrl[to].ProcessMsg(w.Log, clone(m))
